@@ -98,7 +98,7 @@ def run(ctx):
                 ctx.ob("deep-freeze", "impl Cipher for " + im["self_s"].split("::")[-2] + "::" + im["self_s"].split("::")[-1], not b2,
                        "%s is Freeze" % im["self_s"] if not b2 else "%s has interior mutability at %s (%s)" % (im["self_s"], b2[0][0], b2[0][1]),
                        "%s:%d" % (im["span"]["f"], im["span"]["l"]), cfg)
-        ctx.floor("deep-freeze", n_impl, 2, cfg)
+        ctx.floor("deep-freeze", n_impl, 1, cfg)
         # unsafe
         ub = sum(b["hir"].get("unsafe_blocks", 0) for b in F.bodies.values() if "hir" in b)
         uf = [p for p, b in F.bodies.items() if b.get("unsafe_fn")]
